@@ -9,6 +9,27 @@ def _writes_attr(fi, attr):
     return any(k == "rebind" for _, k, _ in q.writes_to_self_attr(fi, attr))
 
 
+def _advance_stmts(m):
+    """statements of method ``m`` that step an attribute of self by one: ``self.a += 1``, or the same written out
+    (``self.a = self.a + 1``, possibly through a local)"""
+    def plus_one_of(e):
+        return e.left.attr if isinstance(e, ast.BinOp) and isinstance(e.op, ast.Add) and is_self_attr(e.left) and isinstance(e.right, ast.Constant) and e.right.value == 1 else None
+    out = []
+    loc = {n.targets[0].id: plus_one_of(n.value) for n in walk_no_nested(m.node) if isinstance(n, ast.Assign) and len(n.targets) == 1 and isinstance(n.targets[0], ast.Name) and plus_one_of(n.value)}
+    # a local counts only when it is bound once (else it may hold something else by the time it is stored)
+    bound = [t.id for n in walk_no_nested(m.node) if isinstance(n, (ast.Assign, ast.AugAssign)) for t in (n.targets if isinstance(n, ast.Assign) else [n.target]) if isinstance(t, ast.Name)]
+    for n in walk_no_nested(m.node):
+        if isinstance(n, ast.AugAssign) and isinstance(n.op, ast.Add) and is_self_attr(n.target) and isinstance(n.value, ast.Constant) and n.value.value == 1:
+            out.append(n)
+        elif isinstance(n, ast.Assign) and len(n.targets) == 1 and is_self_attr(n.targets[0]):
+            src = plus_one_of(n.value)
+            if src is None and isinstance(n.value, ast.Name) and bound.count(n.value.id) == 1:
+                src = loc.get(n.value.id)
+            if src == n.targets[0].attr:
+                out.append(n)
+    return out
+
+
 def run(ctx):
     p, cg = ctx.p, ctx.cg
     tp = ctx.cls("clikit.args.token_parser.TokenParser")
@@ -24,7 +45,7 @@ def run(ctx):
     ctx.require(valid_m is not None, "TokenParser has no validity predicate (return self.<attr> is not None)")
     adv_m = None
     for name, m in tp.methods.items():
-        if any(isinstance(n, ast.AugAssign) and isinstance(n.op, ast.Add) and is_self_attr(n.target) and isinstance(n.value, ast.Constant) and n.value.value == 1 for n in walk_no_nested(m.node)):
+        if _advance_stmts(m):
             adv_m = m
     ctx.require(adv_m is not None, "TokenParser has no cursor advance (self.<cursor> += 1)")
     methods = {k: v for k, v in methods.items()}
@@ -142,7 +163,8 @@ def run(ctx):
     # _next itself must advance when valid: cursor += 1 on the path after the validity test
     nx = methods["_next"]
     cfgn = ctx.cfg(nx)
-    incs = [n for n in cfgn.nodes if n.kind == "stmt" and isinstance(n.ast, ast.AugAssign) and is_self_attr(n.ast.target) and isinstance(n.ast.op, ast.Add)]
+    adv_stmts = _advance_stmts(nx)
+    incs = [n for n in cfgn.nodes if n.kind == "stmt" and n.ast in adv_stmts]
     curw = [n for n in cfgn.nodes if n.kind == "stmt" and isinstance(n.ast, ast.Assign) and any(is_self_attr(t, valid_attr) for t in n.ast.targets)]
     if incs and curw:
         r.ok("_next: increments the cursor and reloads the current character")
